@@ -82,6 +82,23 @@ func main() {
 		os.Exit(cmdFn(os.Args[2:]))
 	case "replay":
 		os.Exit(cmdReplay(os.Args[2:]))
+	case "loops":
+		// govc loops <pkgs> <func-substring>: list the loops of matching functions (ordinals as used by contracts)
+		w, err := loadWorld(repoGo, strings.Split(os.Args[2], ","), nil)
+		if err != nil {
+			fmt.Fprintln(os.Stderr, err)
+			os.Exit(2)
+		}
+		for fn := range w.allFns {
+			if fn.Pkg == nil || fn.Blocks == nil || !strings.Contains(fnKey(fn), os.Args[3]) {
+				continue
+			}
+			fl := w.loopsOf(fn)
+			for _, li := range fl.list {
+				fmt.Printf("%s loop %d header=%q block=%d matched=%v at %s\n", fnKey(fn), li.ordinal, li.header.Comment, li.header.Index, li.bodyPos.IsValid(), w.fset.Position(li.bodyPos))
+			}
+		}
+		os.Exit(0)
 	default:
 		fmt.Fprintln(os.Stderr, "unknown command")
 		os.Exit(2)
